@@ -465,12 +465,20 @@ Definition batch_keys_ok (be : backend) (b : batch) : bool :=
      | None => true
      end.
 
+(** a key that, when present at all, holds a positive count *)
+Definition present_count (d : dict) (k : rkey) : bool :=
+  match lookup (key_name k) d with
+  | Some v => match count_of v with Some _ => true | None => false end
+  | None => true
+  end.
 (** what the LSF adapter needs on top: jsrun's per-resource-set counts are
     positive when declared, an H:M:S walltime is numeric, a batch-level node
-    count is not a false value, the value of "cpus per rs" is printable *)
+    count and a binding are not false values, the value of "cpus per rs" is
+    printable, the step does not override the adapter's job-name / output /
+    error entries *)
 Definition lsf_dom (c : case) : bool :=
   let st := c_step c in
-  count_ok (st_res st) RRsPerNode && count_ok (st_res st) RTasksPerRs
+  present_count (st_res st) RRsPerNode && present_count (st_res st) RTasksPerRs
   && match lookup (s "cpus per rs") (st_res st) with
      | Some v => if truthy v then safe_tok (render v) else true
      | None => true
@@ -479,7 +487,10 @@ Definition lsf_dom (c : case) : bool :=
      | Some w => if is_hms w then forallb all_digits (split_on 58 w) else true
      | None => true
      end
-  && match lookup (s "nodes") (b_kw (c_batch c)) with Some v => truthy v | None => true end.
+  && match lookup (s "nodes") (b_kw (c_batch c)) with Some v => truthy v | None => true end
+  && match lookup (s "bind") (st_res st) with Some v => truthy v | None => true end
+  && negb (has (s "job-name") (st_res st)) && negb (has (s "output") (st_res st))
+  && negb (has (s "error") (st_res st)).
 
 Definition H15 (c : case) : bool :=
   let st := c_step c in
